@@ -42,6 +42,10 @@ class Session:
         self.had_analysis = False
         self.had_restart = False
         self.gen = None
+        # sparse run class: no implicit report calls after accepted edits, so
+        # that consecutive edits really happen without an analysis in between
+        # (per-step monitoring would otherwise refresh any cached state)
+        self.sparse = bool(cfg.get("sparse"))
         self.tol = checks.Tol()
         self.tol_atol = 0.0  # D20 is fixed: the solver's convergence test is purely relative
         self.outcomes = []
@@ -330,7 +334,14 @@ class Session:
                 self.stats["unexpected_reject:" + k + ":" + res[1]] += 1
             else:
                 self.stats["reject_class:" + reason] += 1
+        if self.sparse and accepted:
+            self.prev_snap = None  # unknown until the next report
+            self.stats["sparse_edits_without_reports"] += 1
+            return
         snap = self.snapshot(self.sut)
+        if not accepted and self.prev_snap is None:
+            self.prev_snap = snap
+            self.stats["sparse_reject_without_before"] += 1
         if not accepted:
             d = self.snap_diff(self.prev_snap, snap)
             if d and "C15" in self.enabled:
@@ -445,6 +456,9 @@ class Session:
                     self.gen.freed.extend(victims[:2])
                 m.del_comp(op["name"], op["del_childs"])
             elif k == "set_sys_phases":
+                if not hasattr(self, "dropped_phases"):
+                    self.dropped_phases = set()
+                self.dropped_phases |= set(m.sys_phases) - set(op["phases"])
                 m.set_sys_phases(op["phases"])
             elif k == "set_comp_phases":
                 m.set_comp_phases(m.resolve(op["name"]) or op["name"], op["conf"])
